@@ -4,7 +4,7 @@
 # usage: selftest_benign.sh [scale=0.1] [name filter] [workers=16]
 VERIF="$(cd "$(dirname "${BASH_SOURCE[0]}")" && pwd)"
 SCALE="${1:-0.1}"; FILTER="${2:-}"; WORKERS="${3:-16}"
-PROPS="C01 C02 C03 C04 C05 C06 C07 C08 C09 C10 C11 C12 C13 C15 C16 C17"
+PROPS="${BENIGN_PROPS:-C01 C02 C03 C04 C05 C06 C07 C08 C09 C10 C11 C12 C13 C15 C16 C17}"
 FAIL=0
 for PATCH in "$VERIF"/benign/B*.patch; do
   NAME="$(basename "$PATCH" .patch)"
